@@ -15,7 +15,7 @@ if echo "$R" | grep -q "^CONFIRMED"; then
   python3 - <<PY
 import json
 p='/verif/seeded/$ID/meta.json'
-m=json.load(open(p)); m["round"]=int("${ROUND:-2}"); m['base']='/repo HEAD with the fix: commits (e20aa3d)'
+m=json.load(open(p)); m["round"]=int("${ROUND:-2}"); m['base']='/repo HEAD with the fix: commits ($(git -C $WT rev-parse --short HEAD 2>/dev/null || echo unknown))'
 m['confirmed_by_me']['how']=m['confirmed_by_me']['how'].replace('pinned commit','current /repo HEAD').replace('pinned tree','clean worktree')
 json.dump(m,open(p,'w'),indent=1)
 PY
